@@ -314,10 +314,9 @@ Definition prices_report (l : list item) (posted : list comm) (D : Z) : list (Z 
   let g := build (history_of l) in
   flat_map (fun c => listing_of g c D) posted.
 
-(* ---- commodity_t::find_price memoisation (commodity.cc:118-180) ----
-   Every base commodity owns a memo keyed by (moment, target); commodity_t::add_price
-   clears the memo of the commodity the price is recorded FOR (commodity.cc:62) and of
-   no other commodity. *)
+(* ---- commodity_t::find_price memoisation (commodity.cc:118-187) ----
+   Every base commodity owns a memo keyed by (moment, target); commodity_t::add_price and
+   remove_price clear the memo of EVERY commodity of the pool (commodity.cc:62-66, 75-78). *)
 Definition memo_key := (Z * comm)%type.
 Definition memo := list (comm * memo_key * option price).   (* owner, key, remembered answer *)
 
@@ -329,13 +328,10 @@ Fixpoint memo_find (m : memo) (owner : comm) (k : memo_key) : option (option pri
       else memo_find m' owner k
   end.
 
-Definition memo_clear (m : memo) (owner : comm) : memo :=
-  filter (fun x => negb (comm_eqb (fst (fst x)) owner)) m.
-
 Record pstate : Type := mkState { st_graph : graph; st_memo : memo }.
 
 Definition st_add (s : pstate) (e : entry) : pstate :=
-  mkState (add_entry (st_graph s) e) (memo_clear (st_memo s) (e_src e)).
+  mkState (add_entry (st_graph s) e) [].
 
 Definition st_find (s : pstate) (src tgt : comm) (D : Z) : option price * pstate :=
   if comm_eqb src tgt then (None, s)
